@@ -53,6 +53,8 @@ def build(t):
         return pd.Series(t["v"], index=t.get("index"), name=t.get("name"), dtype=t.get("dtype"))
     if k == "frame":
         return pd.DataFrame({c: v for c, v in t["cols"].items()}, index=t.get("index"))
+    if k == "ovr":            # the value the caller receives; the body wraps it in KeyOverrideResult (see run_job)
+        return build(t["v"])
     if k == "partition":
         vals = {kk: build(x) for kk, x in t["v"].items()}
         if t.get("kind") == "disk":
@@ -131,6 +133,12 @@ def run_job(job):
             msg = "message-%d with é and : colon" % i
             verif_val.TABLE[i] = lambda: (_ for _ in ()).throw(EXC[term["cls"]](msg))
             expected = None
+        elif term["t"] == "ovr":
+            from twosigma.memento.result import KeyOverrideResult
+            msg = ""
+            verif_val.TABLE[i] = lambda: KeyOverrideResult(build(term["v"]), term["key"])
+            verif_val.TABLE[i + 500000] = lambda: KeyOverrideResult({"other": "call", "n": i}, term["key"])   # another call, same key
+            expected = build(term)
         else:
             msg = ""
             verif_val.TABLE[i] = lambda: build(term)
@@ -164,6 +172,20 @@ def run_job(job):
                     ev["msgok"] = msg != "" and msg in str(e)
                     ev["detail"] = str(e)[:160]
                 ev["n"] = sum(1 for it in verif_side.log.take() if it[0] == "Body")
+            elif op == "Disturb":        # a different call publishes a different result under the same override key
+                ev = {"op": "Disturb", "exc": ""}
+                try:
+                    verif_val.vf(i + 500000)
+                except Exception as e:
+                    ev["exc"] = type(e).__name__
+            elif op == "Reopen":         # a new backend object on the same store: nothing cached
+                ev = {"op": "Reopen", "exc": ""}
+                if cfg["backend"] != "memory":
+                    mb = (cfg["budget"] / 1048576.0) if cfg.get("budget") else None
+                    storage = FilesystemStorageBackend(path=os.path.join(base, "data"), memory_cache_mb=mb)
+                    Environment.set(Environment(name="verif", base_dir=base, repos=[ConfigurationRepository(
+                        name="r", clusters={"vv": FunctionCluster(name="vv", storage=storage)})]))
+                    kept.clear()
             elif op == "Memento":
                 ev = {"op": "Memento", "rtype": "none"}
                 try:
@@ -180,6 +202,7 @@ def run_job(job):
                     ev["exc"] = type(e).__name__
             events.append(ev)
         verif_val.TABLE.pop(i, None)
+        verif_val.TABLE.pop(i + 500000, None)
         return {"cfg": cfg, "term": term, "ev": events}
     finally:
         Environment.set(old)
